@@ -79,6 +79,64 @@ CROSS_REALM = [
 ]
 
 
+# Cross-realm CALLS: code of realm 0 calls / constructs / reads something that belongs to realm 1 and that returns or throws; the realm-
+# sensitive observations of realm 0 (global lookup, intrinsics of fresh literals, class of its own errors, realm-1-only globals) must be the
+# same before the call, inside the catch block, after it in the same frame, after the frame returned, and in the next script of realm 0.
+XCALL_SETUP = ('var who = "B", other1 = 1; Array.prototype.sab = "byB"; Object.prototype.sabo = "byB";\n'
+               'var X = {G: globalThis, thrower: function () { throw new TypeError("t1") }, returner: function () { return [1] }, '
+               'acc: {get g() { throw 1 }, get h() { return 2 }}, bound: JSON.parse.bind(null, "{"), boundok: JSON.parse.bind(null, "1"), '
+               'gen: function* () { yield 1 }, afn: async function () { throw 2 }, call: function (f) { return f() } };')
+XCALL_PRE = ('var who = "A", G0 = globalThis;\n'
+             'function OBS() { var r = []; try { r.push(who) } catch (e) { r.push("!" + e.name) } r.push([] instanceof Array, [].sab, ({}).sabo, Object.getPrototypeOf(function () {}) === Function.prototype, '
+             'Object.getPrototypeOf({}) === Object.prototype, globalThis === G0, typeof other1, Object.getPrototypeOf(/r/) === RegExp.prototype, Object.getPrototypeOf(`t`.constructor) === Function.prototype); '
+             'try { null.p } catch (e) { r.push(e instanceof TypeError) } try { undefinedName } catch (e) { r.push(e instanceof ReferenceError) } return r.join() }\n'
+             'function F0T() { throw new Error("f0") } function F0R() { return 1 }\n')
+XCALLS = [
+    ("json-parse", 'x.G.JSON.parse("{")', 'x.G.JSON.parse("1")'),
+    ("array-ctor", 'new x.G.Array(-1)', 'new x.G.Array(2)'),
+    ("map-callback", 'x.G.Array.prototype.map.call([1], F0T)', 'x.G.Array.prototype.map.call([1], F0R)'),
+    ("reflect-apply", 'x.G.Reflect.apply(F0T, null, [])', 'x.G.Reflect.apply(F0R, null, [])'),
+    ("define-property", 'x.G.Object.defineProperty(1, "a", {})', 'x.G.Object.defineProperty({}, "a", {})'),
+    ("closure", 'x.thrower()', 'x.returner()'),
+    ("closure-calls-back", 'x.call(F0T)', 'x.call(F0R)'),
+    ("getter", 'x.acc.g', 'x.acc.h'),
+    ("proxy", 'new x.G.Proxy({}, {get() { throw 1 }}).p', 'new x.G.Proxy({}, {get() { return 1 }}).p'),
+    ("indirect-eval", 'x.G.eval("throw 1")', 'x.G.eval("1")'),
+    ("function-ctor", 'new x.G.Function("throw 1")()', 'new x.G.Function("return 1")()'),
+    ("symbol-tostring", 'x.G.Symbol.prototype.toString.call(1)', 'x.G.String(x.G.Symbol("s"))'),
+    ("bound-native", 'x.bound()', 'x.boundok()'),
+    ("generator", 'x.gen().throw(1)', 'x.gen().next()'),
+    ("bigint", 'x.G.BigInt("x")', 'x.G.BigInt("1")'),
+    ("map-ctor", 'x.G.Map()', 'new x.G.Map()'),
+    ("construct", 'x.G.Reflect.construct(x.G.Map, [5])', 'x.G.Reflect.construct(x.G.Map, [])'),
+    ("array-from", 'x.G.Array.from({length: 1}, F0T)', 'x.G.Array.from({length: 1}, F0R)'),
+    ("to-primitive", 'x.G.Number({valueOf: F0T})', 'x.G.Number({valueOf: F0R})'),
+    ("regexp", 'new x.G.RegExp("(")', 'new x.G.RegExp("a").exec("a")'),
+    ("sort-compare", 'x.G.Array.prototype.sort.call([2, 1], F0T)', 'x.G.Array.prototype.sort.call([2, 1], F0R)'),
+    ("json-stringify", 'x.G.JSON.stringify({toJSON: F0T})', 'x.G.JSON.stringify({toJSON: F0R})'),
+    ("async-fn", 'x.afn().then(F0R, F0R), x.G.Promise.reject(1).then(F0R).catch(F0R), null.q', 'x.afn().then(F0R, F0R), x.G.Promise.resolve(1).then(F0R)'),
+]
+XFRAMES = [
+    ("script", 'BODY'),
+    ("function", '(function () { BODY })();'),
+    ("callback", '[0].forEach(function () { BODY });'),
+    ("generator", '(function* () { BODY yield 1; })().next();'),
+    ("class-static", 'class K { static { BODY } }'),
+]
+XCALL_OK = "A,true,,,true,true,true,undefined,true,true,true,true"
+
+
+def xcall_programs():
+    out = []
+    for cname, thr, ret in XCALLS:
+        for kind, call in (("throws", thr), ("returns", ret)):
+            for fname, frame in XFRAMES:
+                body = ('var o1 = OBS(), oc = o1, res; try { res = "ret " + typeof (' + call + ') } catch (e) { oc = OBS(); res = "thr " + (e && e.name) } var o2 = OBS(); '
+                        'var o3 = (function () { return OBS() })(); __emit([o1 === oc, o1 === o2, o1 === o3, o1].join("|")); __emit(res);')
+                out.append((cname + "/" + kind + "/" + fname, XCALL_PRE + frame.replace("BODY", body) + '\n__emit("end|" + OBS());'))
+    return out
+
+
 def pool(tier):
     n = 40 if tier == "quick" else 400
     fams = [F.ctl_family(3, ("fn",)), F.gen_family("quick"), F.pair_family("quick"), F.class_family("quick"), F.destr_family("quick"),
@@ -178,15 +236,34 @@ def run(chk):
         if got != exp_lines:
             bad.append(("cross-realm-intrinsics", s + " || " + pr, exp_lines, got, j))
     chk.part("cross-realm", probes=len(CROSS_REALM))
+    # cross-realm calls that return or throw leave the caller's realm in place
+    xc = xcall_programs()
+    cj = [{"i": i, "kind": "realms", "steps": [{"realm": 1, "src": XCALL_SETUP}, {"pass": {"from": 1, "name": "X", "to": 0, "as": "x"}}, {"realm": 0, "src": src},
+                                               {"realm": 0, "src": '__emit("next|" + OBS())'}, {"realm": 1, "src": '__emit("r1|" + who + "|" + [].sab)'}]}
+          for i, (_, src) in enumerate(xc)]
+    cres = core.run_jobs(cj)
+    threw = 0
+    for (name, src), j, r in zip(xc, cj, cres):
+        execs += 4
+        comparisons += 1
+        st = r.get("steps", [])
+        got = [(st[k].get("lines") or [None]) if len(st) > k else [None] for k in (2, 3, 4)]
+        want0 = "true|true|true|" + XCALL_OK
+        ok = (len(got[0]) == 3 and got[0][0] == want0 and got[0][2] == "end|" + XCALL_OK and got[1] == ["next|" + XCALL_OK] and got[2] == ["r1|B|byB"]
+              and got[0][1].startswith("thr " if "/throws/" in name else "ret "))
+        threw += 1 if len(got[0]) > 1 and str(got[0][1]).startswith("thr ") else 0
+        if not ok:
+            bad.append(("cross-realm-call " + name, src, [[want0, "thr .../ret ...", "end|" + XCALL_OK], ["next|" + XCALL_OK], ["r1|B|byB"]], got, j))
+    chk.part("cross-realm-calls", programs=len(xc), callees=len(XCALLS), frames=len(XFRAMES), calls_that_threw=threw)
     for hname, p, exp, t, rep in bad:
         chk.violation({"history": hname, "src": p}, t, f"[{hname}] trace of `{p[-120:]}` differs: expected {str(exp)[:120]} observed {str(t)[:120]}",
                       replay={"history": hname, "jobs": rep}, expected=exp)
-    chk.add(evaluations=execs, states=len(P) * (len(histories) + 3) + len(CROSS_REALM), transitions=execs,
+    chk.add(evaluations=execs, states=len(P) * (len(histories) + 3) + len(CROSS_REALM) + len(xc), transitions=execs,
             traces_validated_against_impl=comparisons, distinct_nontrivial=nontrivial)
     chk.cov["distinct_outcomes"] = len(outcomes)
     chk.cov["rule"] = ("E2: pool of %d programs x %d prior histories (each history = one process, steps in order, fresh context per step) + 2 realm "
-                       "histories inside one context + %d cross-realm probes; states = (program, history) pairs, transitions = evaluations; "
-                       "every trace compared with the trace of the same program evaluated first in a fresh process" % (len(P), len(histories), len(CROSS_REALM)))
+                       "histories inside one context + %d cross-realm probes + %d cross-realm calls (callee of realm 1 x throws/returns x caller frame; realm-sensitive observations before = in catch = after = after the frame = next script); states = (program, history) pairs, transitions = evaluations; "
+                       "every trace compared with the trace of the same program evaluated first in a fresh process" % (len(P), len(histories), len(CROSS_REALM), len(xc)))
     chk.sample({"program": P[0]})
     chk.sample({"program": P[len(P) // 2], "history": "after-sabotage-context"})
     chk.sample({"cross_realm": CROSS_REALM[0][:2]})
